@@ -130,14 +130,11 @@ Definition mask_run (rq : list rqent) (rm : list ratom) (scope : list bool) : op
   option_map (map (mask_mapping qu mo)) (mask_search qu mo scope FUEL).
 Definition ref_run (rq : list rqent) (rm : list ratom) (scope : list bool) : option (list (list (Z * Z))) :=
   option_map (map (ref_mapping rq rm)) (ref_search rq rm scope FUEL).
-Definition pair_ok (rq : list rqent) (rm : list ratom) (scope : list bool) (omask oref : option (list (list (Z * Z)))) (occ : Z) : bool :=
+(* occ = highest stack cell the transpiled loop wrote (+1), al1 / al2 = cells it allocated for stack_index / stack_depth *)
+Definition pair_ok (rq : list rqent) (rm : list ratom) (scope : list bool) (omask oref : option (list (list (Z * Z)))) (occ al1 al2 : Z) : bool :=
   maps_eqb (mask_run rq rm scope) omask && maps_eqb (ref_run rq rm scope) oref &&
-  ((occ <? 0) || (Z.of_nat (mask_occupancy (enc_query rq) (enc_mol rm) scope FUEL) =? occ)).
-(* an input on which the transpiled loop wrote outside its stack arrays: the model needs more cells than the .pyx allocates,
-   and the proved allocation would have been enough *)
-Definition overflow_ok (rq : list rqent) (rm : list ratom) (scope : list bool) : bool :=
-  let qu := enc_query rq in let mo := enc_mol rm in let occ := mask_occupancy qu mo scope FUEL in
-  Nat.ltb (alloc_pyx mo) occ && Nat.leb occ (alloc_sufficient qu mo).
+  (Z.of_nat (alloc_pyx (enc_query rq) (enc_mol rm)) =? al1) && (al1 =? al2) &&
+  ((occ <? 0) || ((Z.of_nat (mask_occupancy (enc_query rq) (enc_mol rm) scope FUEL) =? occ) && (occ <=? al1))).
 '''
 
 
@@ -458,7 +455,8 @@ SMARTS_LIB = ['C', 'N', 'O', '[#6]', '[C,N]', '[C,N,O;D2]', 'A', '[A]', '[M]', '
               '[La]', '[Lv]', '[#57,#58]', 'F[Th]', 'C[Hg]', 'Cl[Au]', 'C[Pb]', 'O=[Os]', 'Cl[Pt]', 'F[Th,U]', 'C[Sn,Pb]', '[Hg,Pb]C', 'C[Hg]C', 'B1OCCO1', 'O=C1NC=CC(=O)N1', '[C;r12]', 'C1CCCCCCCCCCC1']
 
 
-# inputs on which the stack arrays of the .pyx (2 * atoms_count cells) are too small (known finding stack-overflow), and near misses
+# inputs on which the former stack arrays of the .pyx (2 * atoms_count cells) were too small (fixed finding stack-overflow, 25e27ca)
+# and near misses: a MemoryFault of the transpiled loop on any input is reported under the key of that finding
 OVERFLOW_PAIRS = {'C123C45C16C24C356': ['C123C45C16C24C356', 'C1CC1', 'C12C3C1C23'],
                   'FS(F)(F)(F)(F)F': ['FS(F)(F)(F)(F)F', 'S(F)(F)(F)(F)(F)F', 'FS(F)(F)(F)F', 'FSF'],
                   'F%11.F%12.F%13.F%14.F%15.F%16.S%11%12%13%14%15%16': ['[A]([A])([A])([A])([A])([A])[A]', '[A]([A])([A])([A])([A])[A]'],
@@ -961,7 +959,7 @@ def component_runs(q, m, rng, mod, full_only=False):
         for sc in scopes:
             bits = [int(n in sc) for n in nums]
             fast, err = run_pyx(mod, qbufs[ci], mbuf, bits)
-            occ = mod.MAX_WRITTEN.get('stack_index', 0)
+            occ = (mod.MAX_WRITTEN.get('stack_index', 0), mod.ALLOCATED.get('stack_index', -1), mod.ALLOCATED.get('stack_depth', -1))
             slow = run_py(comp, clo, m, sc)
             runs.append((ci, comp, bits, fast, err, slow, occ))
     return (comps, clo, qbufs, mbuf, runs), None
@@ -1037,11 +1035,6 @@ def corr_pairs(ck, rng, mod, lay):
                 if err is not None:
                     if not h_none:
                         mismatches.append((qtext, text, q, m, f'accelerated path raised {err}'))
-                    if 'stack_index' in err and 'outside the allocation' in err:
-                        # known finding stack-overflow: the model must need more than 2 * atoms cells here, and not more than the proved bound
-                        cases.append(f'overflow_ok {rq_term(comp, clo)} {rm} {lst(bits, lambda x: b(bool(x)))}')
-                        meta.append(('overflow', qtext, text, ci))
-                        ck.count('search pair on which the transpiled loop overflows its stack arrays (known finding)')
                     continue
                 if len(slow) > MAX_MAPPINGS:
                     ck.count('pair skipped: too many mappings')
@@ -1069,8 +1062,8 @@ def corr_pairs(ck, rng, mod, lay):
                 n_pairs += 1
                 if n_pairs % (8 if ck.tier == 'quick' else 3) == 0:
                     hyp_cases.append(f'gm_hyps_ok {rq_term(comp, clo)} {rm}')
-                cases.append(f'pair_ok {rq_term(comp, clo)} {rm} {lst(bits, lambda x: b(bool(x)))} {maps_term(fast, qnums)} {maps_term(slow, qnums)} {occ if n_pairs % 3 == 0 or ck.tier != "quick" else "(-1)"}')
-                max_occ_ratio = max(max_occ_ratio, occ / max(1, len(m)))
+                cases.append(f'pair_ok {rq_term(comp, clo)} {rm} {lst(bits, lambda x: b(bool(x)))} {maps_term(fast, qnums)} {maps_term(slow, qnums)} {occ[0] if n_pairs % 3 == 0 or ck.tier != "quick" else "(-1)"} {occ[1]} {occ[2]}')
+                max_occ_ratio = max(max_occ_ratio, occ[0] / max(1, len(m)))
                 meta.append(('pair', qtext, text, ci, sum(bits)))
                 ck.case(('pair', qtext, text, ci, tuple(bits)), nontrivial=bool(slow) or bool(fast))
                 ck.count(f'search pair: {min(len(slow), 5)}{"+" if len(slow) >= 5 else ""} mappings, {len(comp)} query atoms'
@@ -1250,7 +1243,9 @@ KNOWN_PROBES = [
     ('query-hydrogens-over-4', '[C;h3,h8]', '[CH3-]', 'query hydrogens 5..14 alias the charge / radical bits'),
     ('query-isotope-offset', '[21C]', 'C', 'query isotope 9 above mdl_isotope lands on the "isotope not specified" bit'),
     ('query-isotope-offset-raises', '[30C]', 'C', 'query isotope >= 10 above (or > 54 below) mdl_isotope: the encoder raises'),
-    ('stack-overflow:stack_index', 'C123C45C16C24C356', 'C123C45C16C24C356', 'stack arrays of 2*atoms_count cells overflow on dense graphs (K5)'),
+    ('stack-overflow:stack_index', 'C123C45C16C24C356', 'C123C45C16C24C356', 'stack arrays overflow on dense graphs (K5)'),
+    ('stack-overflow:stack_index', 'FS(F)(F)(F)(F)F', 'FS(F)(F)(F)(F)F', 'stack arrays overflow when a star-shaped query re-scans one centre (SF6)'),
+    ('stack-overflow:stack_index', '[A]([A])([A])([A])([A])([A])[A]', 'F%11.F%12.F%13.F%14.F%15.F%16.S%11%12%13%14%15%16', 'stack arrays overflow (star query on SF6, sulfur last)'),
 ]
 
 
